@@ -286,6 +286,7 @@ def build(tier, seed):
     # place): those of the record it holds then
     cases += [{'kind': 'edited', 'w': list(w)} for w in words(SIGMA, 3, 3, nonzero=True) if len(set(w)) > 1]
     return {
+        'rule_more': "anonymous / same-named user measures alternating on one object; 'edited' cases: every non-constant word of length 3 tiled to 30 samples, durations queried, the record edited by each mutator of the C04 alphabet, durations queried again vs the crossing definition on the values held then",
         'cases': cases,
         'rule': 'all non-zero words over {-2..2} of length 1..%d (one pool case per word) x dt in %s x all %d ordered '
                 'fraction pairs from %s x se in {T,F} x measure in {array sum of squares (float64 and int64 record), '
